@@ -55,7 +55,8 @@ def special_form(rng, i):
     return f
 
 
-COLLISION_KINDS = ["sibling-case", "sibling-same", "section-same", "helper-count", "helper-other", "meta", "root-section"]
+COLLISION_KINDS = ["sibling-case", "sibling-same", "section-same", "helper-count", "helper-other", "meta", "root-section",
+                   "ambiguous-trigger", "ambiguous-count-helper", "ambiguous-ref"]
 
 
 def collision_form(rng, i):
@@ -89,6 +90,19 @@ def collision_form(rng, i):
         f.survey.append(Row("q", "text", f"so{i}_other", {"label": "clash"}))
     elif kind == "meta":
         f.survey.append(Row("q", "text", "meta", {"label": "clash with generated meta block"}))
+    elif kind in ("ambiguous-trigger", "ambiguous-count-helper", "ambiguous-ref"):
+        # one name carried by N elements in different groups (no sibling clash) and something that must look it up: the path is ambiguous
+        n = rng.choice([2, 3, 3, 4, 5])
+        nm = f"amb{i}" if kind != "ambiguous-count-helper" else f"rp{i}_count"
+        for k in range(n if kind != "ambiguous-count-helper" else n - 1):
+            f.survey.insert(rng.randint(0, len(f.survey)), Row("group", "begin group", f"ag{i}_{k}", {"label": "g"}, [Row("q", "integer", nm, {"label": "x"})]))
+        if kind == "ambiguous-trigger":
+            f.survey.append(Row("q", "calculate", f"trg{i}", {"calculation": "1 + 1", "trigger": "${%s}" % nm}))
+        elif kind == "ambiguous-ref":
+            f.survey.append(Row("q", "text", f"rf{i}", {"label": "r", rng.choice(["relevant", "constraint", "default", "calculation"]): "${%s} + 1" % nm}))
+        else:
+            f.survey.append(Row("repeat", "begin repeat", "rp" + str(i), {"label": "r", "repeat_count": "1 + 1"}, [Row("q", "text", f"i{i}c", {"label": "x"})]))
+        kind = f"{kind}-x{n}"
     elif kind == "root-section":
         f.survey.append(Row("group", "begin group", "data", {"label": "same as root"}, [Row("q", "text", f"i{i}d", {"label": "x"})]))
     return f, kind
